@@ -302,7 +302,9 @@ def execute(case, stats):
     vmap = {name: (v, enc) for name, v, enc in views}
     if want is None:
         check(isinstance(r, Raised), "extract:phantom_config", ctx)
-        if r.exc.__class__ is not ValueError:
+        # the documented error is ValueError - a more specific subclass of it is fine; an incidental UnicodeError (also a
+        # ValueError) from some decode step is not the documented "no configuration found"
+        if isinstance(r.exc, UnicodeError):
             check(False, "extract:wrong_exception", ctx)
         found = None
     else:
